@@ -451,14 +451,15 @@ def _analyze_simple_command(
     if base in SIMPLE_SAFE:
         return Decision("allow", base)
 
-    # 4. Version/help checks
-    if _is_version_or_help(tokens):
+    # 4. Version/help checks (a handler that launches an inner command decides
+    #    first: `sh -c 'cmd' -h` runs cmd, it is not a help query)
+    handler = get_handler(base)
+    result = handler.classify(HandlerContext(tokens)) if handler else None
+    if _is_version_or_help(tokens) and not (result and result.action == "delegate"):
         return Decision("allow", f"{base} --help")
 
     # 5. CLI-specific handlers
-    handler = get_handler(base)
     if handler:
-        result = handler.classify(HandlerContext(tokens))
         desc = result.description or get_description(tokens, base)
         # Check handler-provided redirect targets against config (skip in remote mode)
         if result.redirect_targets and not remote:
